@@ -217,7 +217,10 @@ func propChunk(c ChunkCase, r *pbt.R) error {
 		}
 		return fmt.Errorf("Chunk(%v, %d): a non-positive size was neither rejected (panic) nor answered with chunks that concatenate back: got %v", in, c.Size, got)
 	}
-	got := gogu.Chunk(clone(in), c.Size)
+	var got [][]el
+	if p, v := catch(func() { got = gogu.Chunk(clone(in), c.Size) }); p {
+		return fmt.Errorf("Chunk(%v, %d) panicked for a positive size: %v", in, c.Size, v)
+	}
 	var cat []el
 	for _, ch := range got {
 		cat = append(cat, ch...)
@@ -276,10 +279,8 @@ func genDrop(s pbt.Src, thorough bool) DropCase {
 	switch m := s.Intn(12); {
 	case m < 4: // |n| within 2 of the length
 		c.N = n + pbt.Range(s, -2, 2)
-	case m == 4: // huge counts: MaxInt-2..MaxInt, negated -MaxInt..-MaxInt+2
-		// math.MinInt itself is NOT generated: Drop(s, math.MinInt) panics for every s
-		// (Abs(MinInt) is negative); see replays/C12/probe-drop-minint.json and the Rule text.
-		c.N = math.MaxInt - s.Intn(3)
+	case m == 4: // extreme counts; with the sign flip below: +-MaxInt, +-(MaxInt-1), MinInt (= -MinInt)
+		c.N = pbt.Pick(s, math.MaxInt, math.MinInt, math.MaxInt-1)
 	default:
 		c.N = pbt.Range(s, 0, n+4)
 	}
@@ -306,7 +307,10 @@ func propDrop(c DropCase, r *pbt.R) error {
 	} else {
 		want = in[:n-k]
 	}
-	got := gogu.Drop(clone(in), c.N)
+	var got []el
+	if p, v := catch(func() { got = gogu.Drop(clone(in), c.N) }); p {
+		return fmt.Errorf("Drop(%v, %d) panicked (%v), want %v", in, c.N, v, want)
+	}
 	if !same(got, want) {
 		side := "front"
 		if c.N < 0 {
@@ -1250,11 +1254,15 @@ func TestProp(t *testing.T) {
 		&pbt.Check[DropCase]{
 			Name: "drop",
 			Rule: ident + "Drop(s,n) against: n>0 removes min(n,len) elements from the front, n<0 min(|n|,len) from the back, n=0 nothing. " +
-				"Enumerated: " + sl + " x every n in -9..9 (thorough -11..11); " + rnd + ", |n| within 2 of len, anywhere in 0..len+4, or huge (MaxInt-2..MaxInt), either sign; " +
-				"n == math.MinInt is outside the generated scope (Drop panics there for every slice, replays/C12/probe-drop-minint.json). " +
+				"Enumerated: " + sl + " x every n in -9..9 (thorough -11..11); " + rnd + ", |n| within 2 of len, anywhere in 0..len+4, or extreme (MaxInt, MaxInt-1, MinInt), either sign; fixed cases: n in {MinInt, MinInt+1, MaxInt} on slices of length 0, 1, 3. " +
 				"Non-trivial = non-empty slice (labels: |n| in {0, len-1, len, len+1}, side)." + dist,
 			Enum: enumDrop, Gen: genDrop, Prop: propDrop, OutOfEnum: dropOutOfEnum,
 			RapidQuick: 1200, RapidThorough: 30000,
+			Fixed: []DropCase{
+				// |n| >= len for the extreme counts (math.MinInt has no positive counterpart; MinInt+1 == -MaxInt)
+				{S: []int{0, 1, 2}, N: math.MinInt}, {S: []int{0, 1, 2}, N: math.MinInt + 1}, {S: []int{0, 1, 2}, N: -math.MaxInt}, {S: []int{0, 1, 2}, N: math.MaxInt},
+				{S: []int{}, N: math.MinInt}, {S: []int{}, N: math.MaxInt}, {S: []int{3}, N: math.MinInt}, {S: []int{3}, N: math.MinInt + 1},
+			},
 		},
 		&pbt.Check[SplitCase]{
 			Name: "split",
@@ -1334,6 +1342,7 @@ func FuzzReshape(f *testing.F) {
 	f.Add([]byte{1, 1, 5, 0, 1, 2, 0, 1, 5, 2, 0}) // Drop(5 elements, 2)
 	f.Add([]byte{1, 0, 4, 9, 8, 7, 6, 0, 2, 1})    // Drop(4 elements, -4)
 	f.Add([]byte{1, 1, 3, 0, 1, 2, 4, 0, 1})       // Drop(3 elements, -MaxInt)
+	f.Add([]byte{1, 1, 3, 0, 1, 2, 4, 1, 0})       // Drop(3 elements, MinInt)
 	// flatten: [root is a list?][members][kind, ...] recursively
 	f.Add([]byte{2, 1, 3, 0, 7, 1, 2, 8, 9, 2, 2, 0, 1, 2, 1, 1, 1, 5}) // []any{7, []int{8,9}, []any{1, []any{[]int{5}}}}
 	f.Add([]byte{2, 0, 1, 3, 1, 2, 3})                                  // []int{1,2,3}
